@@ -69,9 +69,9 @@ class Exec:
         self.now = T0 + t
         self.cmds.append("clock %d" % self.now)
 
-    def sendpar(self, threads, per, batch=1):
-        self.cmds.append("sendpar %d %d %d" % (threads, per, batch))
-        self.abstract.append(("sendpar", threads, per, batch))
+    def sendpar(self, threads, per, batch=1, mix=False):
+        self.cmds.append("sendpar %d %d %d%s" % (threads, per, batch, " mix" if mix else ""))
+        self.abstract.append(("sendpar", threads, per, batch, mix))
 
     def peerclose(self):
         self.cmds.append("peerclose")
